@@ -260,7 +260,9 @@ pub fn gen_schema(c: &mut Choices<'_>, cfg: &SchemaGenConfig) -> SchemaDoc {
     let n_ifaces = c.below(cfg.max_ifaces + 1);
     let n_objects = 1 + c.below(cfg.max_objects);
 
-    let names = NamePool::new(cfg.hostile_names);
+    // alphabetical order of the type names is part of the generated space: several engine paths iterate types sorted by
+    // name, so "every interface sorts before its implementers" must not be baked into the generator
+    let names = NamePool::with_style(cfg.hostile_names, c.below(6));
     let mut types: Vec<TypeDef> = vec![];
     let mut prop_counter = 0usize;
     let mut edge_counter = 0usize;
@@ -387,7 +389,8 @@ pub fn gen_schema(c: &mut Choices<'_>, cfg: &SchemaGenConfig) -> SchemaDoc {
             fields.push(f);
         }
         // own properties
-        let n_props = if fields.iter().any(|f| !all_type_names.contains(&f.ty.base)) {
+        // a type may consist of edges only (then step 3 guarantees it at least one edge)
+        let n_props = if fields.iter().any(|f| !all_type_names.contains(&f.ty.base)) || c.chance(30) {
             c.below(3)
         } else {
             1 + c.below(3)
@@ -407,7 +410,7 @@ pub fn gen_schema(c: &mut Choices<'_>, cfg: &SchemaGenConfig) -> SchemaDoc {
 
     // 3. own edges (after all properties exist, so parameter semantics can reference target properties)
     for idx in 0..types.len() {
-        let n_edges = c.below(4);
+        let n_edges = if types[idx].fields.is_empty() { 1 + c.below(3) } else { c.below(4) };
         for _ in 0..n_edges {
             let target_idx = c.below(types.len());
             let target = types[target_idx].name.clone();
@@ -881,21 +884,40 @@ pub fn validate_schema(s: &SchemaDoc) -> Vec<String> {
 /// Name pools. Engine-facing checks use plain distinct names; C26 uses hostile ones.
 pub struct NamePool {
     hostile: bool,
+    /// 0: I<i> / T<i>; 1: Z<i> / T<i> (interfaces sort last); 2: I<i> / A<i> (objects sort first); 3: as 0 with reversed
+    /// indices; 4: Z / A reversed; 5: N<i>a / N<i>b (interleaved)
+    style: usize,
 }
 
 impl NamePool {
     pub fn new(hostile: bool) -> Self {
-        Self { hostile }
+        Self { hostile, style: 0 }
+    }
+    pub fn with_style(hostile: bool, style: usize) -> Self {
+        Self { hostile, style }
     }
     pub fn type_name(&self, i: usize, iface: bool) -> String {
         if self.hostile {
             let pool_i = ["Foo", "foo", "Foo_", "FOO", "Self_", "Type", "Vertex", "Adapter"];
             let pool_o = ["Bar", "bar", "Bar_", "BAR", "Match", "Crate", "Entrypoints", "Box"];
             if iface { pool_i[i % pool_i.len()].to_string() } else { pool_o[i % pool_o.len()].to_string() }
-        } else if iface {
-            format!("I{i}")
         } else {
-            format!("T{i}")
+            let (pi, po, rev) = match self.style {
+                1 => ("Z", "T", false),
+                2 => ("I", "A", false),
+                3 => ("I", "T", true),
+                4 => ("Z", "A", true),
+                5 => ("N", "N", false),
+                _ => ("I", "T", false),
+            };
+            let k = if rev { 9 - i.min(9) } else { i };
+            if self.style == 5 {
+                format!("N{k}{}", if iface { "a" } else { "b" })
+            } else if iface {
+                format!("{pi}{k}")
+            } else {
+                format!("{po}{k}")
+            }
         }
     }
     pub fn prop_name(&self, i: usize) -> String {
